@@ -7,6 +7,7 @@ import MV.Driver.Sample
 import MV.Driver.Scale
 import MV.Driver.QCI
 import MV.Driver.InvCDF
+import MV.Driver.Fit
 open MV
 
 /-- ops whose handler models panics itself -/
@@ -23,6 +24,9 @@ def dispatchOp (ins outs : List J) : Verdict :=
   | .atom "sc" :: rest => Scale.handleScale rest outs
   | .atom "qci" :: rest => QCI.handleQCI rest outs
   | .atom "inv" :: rest => InvCDF.handleInv rest outs
+  | .atom "lls" :: rest => Fit.handleLLS rest outs
+  | .atom "preg" :: rest => Fit.handlePReg rest outs
+  | .atom "loess" :: rest => Fit.handleLoess rest outs
   | .atom "rnd" :: rest => InvCDF.handleRnd rest outs
   | .atom "sci" :: rest => QCI.handleSCI rest outs
   | .atom "findlevel" :: rest => Scale.handleFindLevel rest outs
